@@ -35,6 +35,11 @@ fn main() {
                 std::process::exit(2);
             }
         },
+        #[cfg(feature = "full")]
+        "c18-child" => {
+            let code = props::c18::child_main(&args[2]);
+            std::process::exit(code);
+        }
         "info" => {
             println!("{}", props::build_info());
         }
